@@ -5,9 +5,12 @@ pub mod c03;
 pub mod c04;
 pub mod c05;
 pub mod c06;
+pub mod c07;
 pub mod c08;
 pub mod c09;
+pub mod c11;
 pub mod c12;
+pub mod c13;
 pub mod c14;
 pub mod c15;
 pub mod c16;
@@ -28,9 +31,12 @@ pub fn table() -> Vec<(&'static str, RunFn, ReplayFn)> {
         ("C04", c04::run as RunFn, c04::replay as ReplayFn),
         ("C05", c05::run as RunFn, c05::replay as ReplayFn),
         ("C06", c06::run as RunFn, c06::replay as ReplayFn),
+        ("C07", c07::run as RunFn, c07::replay as ReplayFn),
         ("C08", c08::run as RunFn, c08::replay as ReplayFn),
         ("C09", c09::run as RunFn, c09::replay as ReplayFn),
+        ("C11", c11::run as RunFn, c11::replay as ReplayFn),
         ("C12", c12::run as RunFn, c12::replay as ReplayFn),
+        ("C13", c13::run as RunFn, c13::replay as ReplayFn),
         ("C14", c14::run as RunFn, c14::replay as ReplayFn),
         ("C15", c15::run as RunFn, c15::replay as ReplayFn),
         ("C16", c16::run as RunFn, c16::replay as ReplayFn),
